@@ -36,6 +36,16 @@ FAMILIES = ['cell-cards', 'cell-cards-np', 'data-n', 'data-np-two-cards',
 _PER = {'quick': 10, 'thorough': 600}
 
 
+def attach_monitors():
+    from .. import monitors
+    monitors.attach_contracts()
+
+
+def monitor_counts():
+    from .. import monitors
+    return dict(monitors.COUNTS)
+
+
 def plan(tier):
     return [(fam, _PER[tier]) for fam in FAMILIES]
 
